@@ -11,14 +11,15 @@ import (
 var collidingNames = []string{"v1", "v2", "sched", "emitter", "tasks", "task0", "task1", "flowInfo", "schedInfo", "startTime", "pred1", "p0", "t", "idx", "val", "key", "directiveInfo", "parallelInfo", "flowEmitter", "schedEmitter", "v3", "taskEmitter"}
 
 type printer struct {
-	p      *Prog
-	aux    strings.Builder // functions living in the corpus package's aux subpackage
-	b      strings.Builder // declarations before the program function
-	probes []ProbeInfo
-	wrap   bool
-	pfx    string // "P<id>"
-	nargs  int    // directive arguments rendered so far
-	errAt  int    // which of them mentions the user's variable err (0: none)
+	p       *Prog
+	aux     strings.Builder // functions living in the corpus package's aux subpackage
+	b       strings.Builder // declarations before the program function
+	probes  []ProbeInfo
+	wrap    bool
+	pfx     string // "P<id>"
+	nargs   int    // directive arguments rendered so far
+	errAt   int    // which of them mentions the user's variable err (0: none)
+	errWhat string // alternatively: the first argument of this kind does
 	// mutVar/mutNew: the next argument rendered overwrites this variable with that value
 	mutVar, mutNew string
 	mutDone        bool
@@ -34,7 +35,8 @@ func (pr *printer) probe(what, expr string) string {
 		expr = fmt.Sprintf("rt.Mut(&%s, %s, %s)", pr.mutVar, pr.mutNew, expr)
 		pr.mutVar = ""
 	}
-	if pr.errAt != 0 && pr.nargs == pr.errAt {
+	if (pr.errAt != 0 && pr.nargs == pr.errAt) || (pr.errWhat != "" && pr.errWhat == what) {
+		pr.errWhat = ""
 		switch what {
 		case "continue-on-error":
 			expr = fmt.Sprintf("rt.Pick(h, 0, err == rt.ErrMark, %s, !(%s))", expr, expr)
@@ -469,13 +471,24 @@ func (pr *printer) flow(f *FlowP) string {
 		}
 	}
 	if len(f.Results) > 0 {
-		items = append(items, renderItem{render: func() string {
-			var a []string
-			for k := range f.Results {
-				a = append(a, pr.probe("result", fmt.Sprintf("&r%d", k)))
+		// one cff.Results option, or the targets spread over two
+		split := len(f.Results)
+		if len(f.Results) > 1 && rng.Intn(2) == 0 {
+			split = 1 + rng.Intn(len(f.Results)-1)
+		}
+		for _, part := range [][2]int{{0, split}, {split, len(f.Results)}} {
+			part := part
+			if part[0] == part[1] {
+				continue
 			}
-			return "cff.Results(" + strings.Join(a, ", ") + ")"
-		}})
+			items = append(items, renderItem{render: func() string {
+				var a []string
+				for k := part[0]; k < part[1]; k++ {
+					a = append(a, pr.probe("result", fmt.Sprintf("&r%d", k)))
+				}
+				return "cff.Results(" + strings.Join(a, ", ") + ")"
+			}})
+		}
 	}
 	switch f.ConcMode {
 	case ArgConst:
@@ -486,7 +499,9 @@ func (pr *printer) flow(f *FlowP) string {
 		items = append(items, renderItem{render: func() string { return "cff.Concurrency(" + pr.probe("concurrency", "h.Conc(0)") + ")" }})
 	}
 	if f.Emitters > 0 {
-		items = append(items, renderItem{render: func() string { return strings.Join(emitterOpts(pr, f.Emitters, f.EmitNest, f.EmitShared, f.EmitSlice), ",\n\t\t") }})
+		items = append(items, renderItem{render: func() string {
+			return strings.Join(emitterOpts(pr, f.Emitters, f.EmitNest, f.EmitShared, f.EmitSlice), ",\n\t\t")
+		}})
 		if f.InstrFlow {
 			items = append(items, renderItem{render: func() string {
 				return "cff.InstrumentFlow(" + pr.probe("instrument-flow", fmt.Sprintf("%q", "f"+fmt.Sprint(pr.p.ID))) + ")"
@@ -538,6 +553,9 @@ func (pr *printer) flow(f *FlowP) string {
 		pr.errAt = 1
 		if e := int(uint64(f.OptSeed) % 16); e >= 8 {
 			pr.errAt = e - 6
+		}
+		if (uint64(f.OptSeed)>>4)%4 == 1 && f.ConcMode != ArgAbsent {
+			pr.errAt, pr.errWhat = 0, "concurrency"
 		}
 	}
 	fb.WriteString("\terr = cff.Flow(" + pr.probe("ctx", "ctx"))
@@ -687,7 +705,9 @@ func (pr *printer) par(p *ParP) string {
 		}})
 	}
 	if p.Emitters > 0 {
-		items = append(items, renderItem{render: func() string { return strings.Join(emitterOpts(pr, p.Emitters, p.EmitNest, p.EmitShared, p.EmitSlice), ",\n\t\t") }})
+		items = append(items, renderItem{render: func() string {
+			return strings.Join(emitterOpts(pr, p.Emitters, p.EmitNest, p.EmitShared, p.EmitSlice), ",\n\t\t")
+		}})
 		if p.InstrPar {
 			items = append(items, renderItem{render: func() string {
 				return "cff.InstrumentParallel(" + pr.probe("instrument-parallel", fmt.Sprintf("%q", "f"+fmt.Sprint(pr.p.ID))) + ")"
@@ -785,6 +805,13 @@ func (pr *printer) par(p *ParP) string {
 		pr.errAt = 1
 		if e := int(uint64(p.OptSeed) % 16); e >= 8 {
 			pr.errAt = e - 6
+		}
+		// arguments that steer the directive get their share
+		switch sel := (uint64(p.OptSeed) >> 4) % 4; {
+		case sel == 0 && p.COEMode != ArgAbsent:
+			pr.errAt, pr.errWhat = 0, "continue-on-error"
+		case sel == 1 && p.ConcMode != ArgAbsent:
+			pr.errAt, pr.errWhat = 0, "concurrency"
 		}
 	}
 	fb.WriteString("\terr = cff.Parallel(" + pr.probe("ctx", "ctx"))
